@@ -100,4 +100,63 @@ def predictedRow3 (big : K) (ln1m : K → K) (lo hi : K) (pss : List (List (Pt K
   let bi := (argminFirst (per.map (·.2))).1
   predicted2 (per.getD bi (0, 0)).1 0 (pss.getD bi []) (mfss.getD bi [])
 
+/-! ## distance-dependent mode (`Models.fit`, `ndim == 3`) with the `extended` mask -/
+
+/-- one model of an aperture-dependent package as `Models.fit` sees it -/
+structure ModelRow3 (K : Type) where
+  name : String
+  /-- `log_fluxes_mJy[m]`: log10 fluxes `[trial distance][band]`, already interpolated to the aperture
+      `θ·d` and scaled by `(1 kpc / d)²` (C02) -/
+  mfss : List (List K)
+  /-- `np.any(extended[m, d, valid > 0])` per trial distance; `[]` when `remove_resolved` is off -/
+  ext : List Bool
+
+/-- the per-distance point lists built from the model's own log fluxes (`residual = log_flux − model_fluxes`) -/
+def pssOf (lobs : List (LogObs K)) (ks : List K) (mfss : List (List K)) : List (List (Pt K)) :=
+  mfss.map (fun mf => mkPts lobs mf ks)
+
+/-- `ch_best[reset] = np.inf`: chi² per trial distance, `+inf` where the model is resolved -/
+def maskChi (per : List (K × K)) (ext : List Bool) : List (EF K) :=
+  per.mapIdx (fun d p => if ext.getD d false then EF.pinf else EF.fin p.2)
+
+/-- `np.argmin` over doubles without NaN: first index of the minimum, with the minimum -/
+def argminFirstEFAux : List (EF K) → Nat → Nat → EF K → Nat × EF K
+  | [], _, bi, bv => (bi, bv)
+  | x :: xs, i, bi, bv =>
+    if EF.lt x bv then argminFirstEFAux xs (i + 1) i x else argminFirstEFAux xs (i + 1) bi bv
+
+def argminFirstEF : List (EF K) → Nat × EF K
+  | [] => (0, EF.nan)
+  | x :: xs => argminFirstEFAux xs 1 0 x
+
+/-- `Models.fit`, `ndim == 3`, one model, with the mask: `(av, sc, chi2, best distance index)` -/
+def fit3Ext (big : K) (ln1m : K → K) (lo hi : K) (logd : List K) (pss : List (List (Pt K)))
+    (ext : List Bool) : K × K × EF K × Nat :=
+  let per := fit3PerDist big ln1m lo hi pss
+  let (bi, bc) := argminFirstEF (maskChi per ext)
+  ((per.getD bi (0, 0)).1, logd.getD bi 0, bc, bi)
+
+/-- the stored row `(model + model_fluxes)[m, best, :]` of one model, `model = av·av_law` -/
+def predictedRow3Ext (big : K) (ln1m : K → K) (lo hi : K) (lobs : List (LogObs K)) (ks : List K)
+    (m : ModelRow3 K) : List K :=
+  let pss := pssOf lobs ks m.mfss
+  let r := fit3Ext big ln1m lo hi [] pss m.ext
+  predicted2 r.1 0 (pss.getD r.2.2.2 []) (m.mfss.getD r.2.2.2 [])
+
+/-- `Models.fit`, `ndim == 3`, before `info.sort()` -/
+def fitRowsUnsorted3 (big : K) (ln1m : K → K) (lo hi : K) (logd : List K) (lobs : List (LogObs K))
+    (ks : List K) (models : List (ModelRow3 K)) : FitRows K :=
+  let res := models.map (fun m => fit3Ext big ln1m lo hi logd (pssOf lobs ks m.mfss) m.ext)
+  { av := res.map (·.1)
+    sc := res.map (·.2.1)
+    chi2 := res.map (·.2.2.1)
+    name := models.map (·.name)
+    fluxes := some (models.map (predictedRow3Ext big ln1m lo hi lobs ks))
+    modelId := [] }
+
+/-- `Models.fit`, `ndim == 3` -/
+def fitRows3 (big : K) (ln1m : K → K) (lo hi : K) (logd : List K) (lobs : List (LogObs K))
+    (ks : List K) (models : List (ModelRow3 K)) : FitRows K :=
+  sortRows (fitRowsUnsorted3 big ln1m lo hi logd lobs ks models)
+
 end SF
